@@ -25,8 +25,8 @@ func NewIntegerIter[T integer](n T) Iterator[pair[T, any]] {
 	return &integerIter[T]{n: n}
 }
 
-func NewStringIter(str string) Iterator[pair[int, rune]] {
-	return &stringIter{str: str}
+func NewStringIter[S ~string](str S) Iterator[pair[int, rune]] {
+	return &stringIter{str: string(str)}
 }
 
 func NewSliceIter[V any](slice []V) Iterator[pair[int, V]] {
